@@ -831,6 +831,9 @@ func checkNumericEscape(w *World, r *Report, rule, construct string, cc *ast.Cas
 			}
 			if sel, ok := n.Fun.(*ast.SelectorExpr); ok && sel.Sel.Name == "EncodeRune" || ok && sel.Sel.Name == "AppendRune" {
 				encodes = true
+				if sel.Sel.Name == "AppendRune" && bits == 32 {
+					nAppend++ // utf8.AppendRune(content, r) encodes and appends in one step
+				}
 			}
 			if sel, ok := n.Fun.(*ast.SelectorExpr); ok && sel.Sel.Name == "ParseUint" && len(n.Args) == 3 {
 				b, _ := constI(info, n.Args[1])
